@@ -1014,7 +1014,74 @@ def rule_block_encoding(model):
     return r
 
 
-RULES_PLAIN = [rule_threading, rule_compile_receiver, rule_concat, rule_decoders, rule_exception_str, rule_stringify,
+def rule_sections_as_blocks(model):
+    r = RuleResult('C19.R8', 'a block tag keeps the compiled block LISTS of '
+                   'its sections and renders them itself with the template '
+                   'encoding it was given; it does not keep the section '
+                   'templates (rendering one means calling it, and a '
+                   'section template carries the default encoding, not the '
+                   'template\'s)')
+    from ..shared import shared_classes
+    n = 0
+    for kind, ci in shared_classes(model).values():
+        if kind != 'tag':
+            continue
+        for fi in ci.methods.values():
+            # section variables: third name unpacked from blocks[...]
+            secs = set()
+            for x in own_nodes(fi.node):
+                tgt = src = None
+                if isinstance(x, ast.Assign) and isinstance(
+                        x.targets[0], ast.Tuple):
+                    tgt, src = x.targets[0], x.value
+                elif isinstance(x, ast.For) and isinstance(
+                        x.target, ast.Tuple):
+                    tgt, src = x.target, x.iter
+                if tgt is not None and len(tgt.elts) == 3 and isinstance(
+                        tgt.elts[2], ast.Name) and 'blocks' in norm(src):
+                    secs.add(tgt.elts[2].id)
+            if not secs:
+                continue
+            for x in own_nodes(fi.node):
+                val = None
+                if isinstance(x, ast.Assign) and any(
+                        isinstance(t, ast.Attribute) and isinstance(
+                            t.value, ast.Name) and t.value.id == 'self'
+                        for t in x.targets):
+                    val = x.value
+                elif isinstance(x, ast.Call) and isinstance(
+                        x.func, ast.Attribute) and x.func.attr in (
+                        'append', 'insert', 'setdefault') and \
+                        'self.' in norm(x.func.value) and x.args:
+                    val = x.args[-1]
+                if val is None:
+                    continue
+                bare = [y for y in ast.walk(val) if isinstance(y, ast.Name)
+                        and y.id in secs and not (
+                            isinstance(getattr(y, '_dt_parent', None),
+                                       ast.Attribute) and
+                            y._dt_parent.attr == 'blocks')]
+                if not any(isinstance(y, ast.Name) and y.id in secs
+                           for y in ast.walk(val)):
+                    continue
+                n += 1
+                r.instance(fi.where, x, 'block list' if not bare
+                           else 'SECTION TEMPLATE KEPT')
+                if bare:
+                    r.finding(fi.where, x, f'the tag keeps the section '
+                              f'template `{bare[0].id}` itself, not its '
+                              'block list: it can only be rendered by '
+                              'calling it, and then bytes are joined and '
+                              'quoted with the section\'s default '
+                              'encoding instead of the encoding of the '
+                              'template', node=x, ctx=fi)
+    if n < 8:
+        raise AnalysisError(f'C19.R8: only {n} section stores found')
+    return r
+
+
+RULES_PLAIN = [rule_sections_as_blocks, rule_threading,
+               rule_compile_receiver, rule_concat, rule_decoders, rule_exception_str, rule_stringify,
                rule_block_encoding, rule_join_copy]
 RULES = [_inl(r_) for r_ in RULES_PLAIN] if INLINED_VIEW else RULES_PLAIN
 EXPLANATION = (
